@@ -30,6 +30,19 @@ Proof.
   destruct (nochar DOT d); [|discriminate]. simpl. destruct (is_xml_tag d) eqn:E; [|discriminate].
   intros _. split; [apply names_are_xml_names; exact E|split; reflexivity].
 Qed.
+Lemma dataset_cell_ok c : dataset_cell_check c = None ->
+  exists d, c = Some d /\ d <> [] /\ xml_name d = true /\ nochar DOT d = true /\ starts_with reserved_prefix d = false.
+Proof.
+  destruct c as [[|x r]|]; cbn [dataset_cell_check]; try discriminate. intro H. exists (x :: r). split; [reflexivity|split; [discriminate|]].
+  apply dataset_ok_is_xml_name; exact H.
+Qed.
+Lemma dataset_cell_total c : (exists n, dataset_cell_check c = Some n /\ n <= 3) \/ dataset_cell_check c = None.
+Proof.
+  destruct c as [[|x r]|]; cbn [dataset_cell_check]; [left; exists 0; split; [reflexivity|lia]| |left; exists 0; split; [reflexivity|lia]].
+  unfold dataset_check. destruct (starts_with reserved_prefix (x :: r)); [left; exists 1; split; [reflexivity|lia]|].
+  destruct (negb (nochar DOT (x :: r))); [left; exists 2; split; [reflexivity|lia]|].
+  destruct (negb (is_xml_tag (x :: r))); [left; exists 3; split; [reflexivity|lia]|right; reflexivity].
+Qed.
 Lemma saveto_ok_is_xml_name sv : saveto_name_check sv = None ->
   xml_name sv = true /\ lower_ascii sv <> s_name /\ lower_ascii sv <> s_label /\ starts_with reserved_prefix sv = false.
 Proof.
